@@ -204,7 +204,7 @@ pub fn step(front: &str, region: &str, s: &St, e: &E) -> (Vec<(String, String)>,
             let adr_bit = h.fctrl & 0x80 != 0;
             let req_bit = h.fctrl & 0x40 != 0;
             let ack_bit = h.fctrl & 0x20 != 0;
-            let tx_dr: Vec<u8> = rr::dr_index(region, rf.sf, rf.bw).into_iter().filter(|d| *d <= 7).collect();
+            let tx_dr: Vec<u8> = rr::dr_index(region, rf.sf, rf.bw).into_iter().filter(|d| *d <= 7 || s.dr >= 8).collect();
             // keep the model candidates that explain this uplink
             let mut why = vec![];
             for m in &s.models {
@@ -314,6 +314,11 @@ fn events(front: &str, region: &str) -> Vec<E> {
     // lowest, a middle one and the highest uplink rate
     let mut pick = vec![drs[0], drs[drs.len() / 2], *drs.last().unwrap()];
     pick.dedup();
+    if rr::is_fixed(region) {
+        // a region-defined rate above a gap in the table (DR5..7 / DR7 are RFU): the next lower defined rate is
+        // not "current - 1"
+        pick.push(8);
+    }
     for d in pick {
         v.push(E::SetDr(d));
     }
@@ -409,7 +414,7 @@ pub fn run(tier: Tier, replay: Option<&str>) {
         "samples": [serde_json::to_value(Case { front: "nb".into(), region: "EU868".into(), state: St { dr: 5, adr: true, cnt: 95, owed_ack: true, confirmed: false, has_down: true, models: vec![Model { cnt: 95, dr: 5, owed: true, adr: true, strict: true }] }, event: E::Up { confirmed: true, outcome: 0 }, path_len: 96 }).unwrap()],
         "evaluations": ctx.evals(),
         "distinct_nontrivial": states_total,
-        "rule": "complete reachable graph of (data rate, ADR flag, ADR counter, owed ACK, last uplink confirmed, downlink seen, reference-model candidates) from the fresh session at the highest uplink rate, per region and front-end (nb; async with Class C); every state is restored on a fresh real device through Session (de)serialisation + public setters, then one event is applied: uplink (confirmed / unconfirmed) with outcome {nothing, accepted unconfirmed dl RX1, accepted confirmed dl RX2, rejected dl, Class C accepted dl before RX1 / RX2}, set_adr(on/off), set_datarate(lowest/middle/highest). The counter dimension is followed until it has passed every back-off step plus two periods",
+        "rule": "complete reachable graph of (data rate, ADR flag, ADR counter, owed ACK, last uplink confirmed, downlink seen, reference-model candidates) from the fresh session at the highest uplink rate, per region and front-end (nb; async with Class C); every state is restored on a fresh real device through Session (de)serialisation + public setters, then one event is applied: uplink (confirmed / unconfirmed) with outcome {nothing, accepted unconfirmed dl RX1, accepted confirmed dl RX2, rejected dl, Class C accepted dl before RX1 / RX2}, set_adr(on/off), set_datarate(lowest/middle/highest, and DR8 above the RFU gap of the fixed plans). The counter dimension is followed until it has passed every back-off step plus two periods",
         "max_adr_counter_reached": max_cnt_seen,
         "regions": regions,
         "outcomes": outcomes,
